@@ -119,6 +119,8 @@ func (l *LRUCache) Len() int {
 }
 
 func (l *LRUCache) Dump() string {
+	l.rwMu.RLock()
+	defer l.rwMu.RUnlock()
 	head := l.list.Front()
 	buf := newStrBuf()
 	defer putStrBuf(buf)
